@@ -1,5 +1,6 @@
 import TF.Proofs.LatticeCt
 import TF.Proofs.LatticeKem
+import TF.Proofs.GenBridgeLattice
 /-!
 # C18 — lattice ring product is negacyclic convolution; KEM correct, rejects tampering
 
@@ -141,5 +142,132 @@ theorem kem_correct_under_noise_bound (O : Oracles) (rk r : List Nat)
   kem_correct_noise O rk r hlen hb hE
 example : ∃ O : Oracles, (O.xof [] 32).length = 32 ∧ ∀ x ∈ O.xof [] 32, x < 256 :=
   ⟨{ xof := fun _ n => List.replicate n 0, hash := fun _ => [1] }, by simp, by intro x hx; simp at hx; omega⟩
+
+/-! ## regenerated-from-source bridge
+
+`TF/Gen/LatticeLoops.lean` is written by `tools/rs2lean_lattice.py` from the text of `lattice.rs` on every run (`lat_*`,
+namespace `TF.Gen.Loops`).  `coset_ntt_noswap_64` / `coset_intt_noswap_64` are translated over a parameter record of field
+operations `ops : Ops σ α` (array elements `α`; table entries and `N_INV` are `ops.sofNat <literal>`); the other functions
+on canonical values.  Each `gen_*_eq_model` theorem says: the regenerated function returns what the hand model returns,
+its `_ok` twin is true (no index out of range, no overflow of plain `+ - * <<`, no shift amount out of range) and — where
+the Rust code has a `while` — it finishes within its fuel.  The transfer theorems restate the main theorems of this file
+for the regenerated code. -/
+
+/-- **`coset_ntt_noswap_64` as regenerated from source is the model's `cosetNtt`** — for every operation record `ops`
+    and every array of 64 elements; the table is the regenerated `PSI_POWERS_BITREVERSED` through `BFieldElement::new`. -/
+theorem gen_coset_ntt_eq_model {σ α : Type} (ops : Model.Ntt.Ops σ α) (x : Array α) (hx : x.size = 64) :
+    Loops.lat_coset_ntt_noswap_64 ops x.toList
+      = some (cosetNtt ops (PSI_POWERS_BITREVERSED.map ops.sofNat).toArray x).toList ∧
+    Loops.lat_coset_ntt_noswap_64_ok ops x.toList = true :=
+  GenBridge.Lattice.gen_coset_ntt_eq ops x hx
+example : ((Array.range 64).map (· * 3 + 1)).size = 64 ∧
+    Loops.lat_coset_ntt_noswap_64 Model.Ntt.bOps ((Array.range 64).map (· * 3 + 1)).toList
+      = some (ntt64 ((Array.range 64).map (· * 3 + 1))).toList := by decide +kernel
+
+/-- **`coset_intt_noswap_64` as regenerated from source is the model's `cosetIntt`** — for every `ops` and every array
+    of 64 elements; table `PSI_INV_POWERS_BITREVERSED`, scalar `LATTICE_N_INV` through `BFieldElement::new`. -/
+theorem gen_coset_intt_eq_model {σ α : Type} (ops : Model.Ntt.Ops σ α) (x : Array α) (hx : x.size = 64) :
+    Loops.lat_coset_intt_noswap_64 ops x.toList
+      = (cosetIntt ops (PSI_INV_POWERS_BITREVERSED.map ops.sofNat).toArray (ops.sofNat LATTICE_N_INV) x).toList ∧
+    Loops.lat_coset_intt_noswap_64_ok ops x.toList = true :=
+  GenBridge.Lattice.gen_coset_intt_eq ops x hx
+example : Loops.lat_coset_intt_noswap_64 Model.Ntt.bOps ((Array.range 64).map (· * 5 + 2)).toList
+      = (intt64 ((Array.range 64).map (· * 5 + 2))).toList := by decide +kernel
+
+/-- On canonical values (`bOps`: `Spec.fadd/fsub/fmul`, `BFieldElement::new n = n % P`) the tables are the regenerated
+    constants, so the regenerated transforms **are** `ntt64` / `intt64`. -/
+theorem gen_coset_transforms_are_ntt64_intt64 (x : Ring) (hx : x.size = 64) :
+    Loops.lat_coset_ntt_noswap_64 Model.Ntt.bOps x.toList = some (ntt64 x).toList ∧
+    Loops.lat_coset_ntt_noswap_64_ok Model.Ntt.bOps x.toList = true ∧
+    Loops.lat_coset_intt_noswap_64 Model.Ntt.bOps x.toList = (intt64 x).toList ∧
+    Loops.lat_coset_intt_noswap_64_ok Model.Ntt.bOps x.toList = true :=
+  ⟨(GenBridge.Lattice.gen_ntt64 x hx).1, (GenBridge.Lattice.gen_ntt64 x hx).2,
+   (GenBridge.Lattice.gen_intt64 x hx).1, (GenBridge.Lattice.gen_intt64 x hx).2⟩
+example : (Array.replicate 64 (P - 1) : Ring).size = 64 := by decide
+
+/-- **`embed_msg` as regenerated from source is the model's `embedMsg`**, for every message of 32 bytes. -/
+theorem gen_embed_msg_eq_model (msg : List Nat) (hlen : msg.length = 32) (hb : ∀ b ∈ msg, b < 256) :
+    Loops.lat_embed_msg msg = (embedMsg msg).toList ∧ Loops.lat_embed_msg_ok msg = true :=
+  GenBridge.Lattice.gen_embed_msg_eq msg hlen hb
+example : ((List.range 32).map (· * 7 + 3)).length = 32 ∧ (∀ b ∈ (List.range 32).map (· * 7 + 3), b < 256) ∧
+    (Loops.lat_embed_msg ((List.range 32).map (· * 7 + 3))).getD 8 0 = 2 ^ 15 + 2 ^ 31 + 2 ^ 47 + 2 ^ 63 := by decide +kernel
+
+/-- **`extract_msg` as regenerated from source is the model's `extractMsg`**, for every ring element. -/
+theorem gen_extract_msg_eq_model (x : Ring) (hx : x.size = 64) :
+    Loops.lat_extract_msg x.toList = extractMsg x ∧ Loops.lat_extract_msg_ok x.toList = true :=
+  GenBridge.Lattice.gen_extract_msg_eq x hx
+example : Loops.lat_extract_msg ((List.range 64).map (· * 2000000000000000 + 40000)) =
+    [49, 83, 117, 87, 51, 17, 119, 117, 23, 49, 19, 119, 85, 23, 49, 83, 117, 85, 51, 17, 83, 117, 87, 49, 17, 119, 85, 23, 49,
+      19, 117, 85] := by decide +kernel
+
+/-- **The ring operations as regenerated from source are the model's** (`Add`, `Sub`, `hadamard`, `Mul` of
+    `CyclotomicRingElement`), for all pairs of ring elements; in `mul` both `while` loops finish and nothing panics. -/
+theorem gen_ring_ops_eq_model (a b : Ring) (ha : a.size = 64) (hb : b.size = 64) :
+    (Loops.lat_ring_add a.toList b.toList = (ringAdd a b).toList ∧ Loops.lat_ring_add_ok a.toList b.toList = true) ∧
+    (Loops.lat_ring_sub a.toList b.toList = (ringSub a b).toList ∧ Loops.lat_ring_sub_ok a.toList b.toList = true) ∧
+    (Loops.lat_ring_hadamard a.toList b.toList = (ringHadamard a b).toList ∧
+      Loops.lat_ring_hadamard_ok a.toList b.toList = true) ∧
+    (Loops.lat_ring_mul a.toList b.toList = some (ringMul a b).toList ∧ Loops.lat_ring_mul_ok a.toList b.toList = true) :=
+  ⟨GenBridge.Lattice.gen_ring_add_eq a b ha hb, GenBridge.Lattice.gen_ring_sub_eq a b ha hb,
+   GenBridge.Lattice.gen_ring_hadamard_eq a b ha hb, GenBridge.Lattice.gen_ring_mul_eq a b ha hb⟩
+example : Loops.lat_ring_sub (List.replicate 64 1) (List.replicate 64 2) = List.replicate 64 (P - 1) := by decide +kernel
+
+/-- **Transfer of `ring_mul_is_negacyclic`**: `Mul for CyclotomicRingElement` *as regenerated from source* computes the
+    schoolbook product modulo `X^64 + 1`, for all pairs of ring elements, and never panics. -/
+theorem gen_ring_mul_is_negacyclic (a b : Ring) (ha : a.size = 64) (hb : b.size = 64) :
+    Loops.lat_ring_mul a.toList b.toList = some (negacyclic a b).toList ∧ Loops.lat_ring_mul_ok a.toList b.toList = true := by
+  rw [← ring_mul_is_negacyclic a b ha hb]
+  exact GenBridge.Lattice.gen_ring_mul_eq a b ha hb
+example : (Loops.lat_ring_mul ((List.range 64).map (· + 1)) (0 :: 1 :: List.replicate 62 0)).map (·.take 3)
+    = some [P - 64, 1, 2] := by decide +kernel
+
+/-- **Transfer of `coset_intt_ntt`**: the regenerated inverse transform undoes the regenerated forward transform. -/
+theorem gen_coset_intt_ntt (x : Ring) (hx : x.size = 64) :
+    (Loops.lat_coset_ntt_noswap_64 Model.Ntt.bOps x.toList).map (Loops.lat_coset_intt_noswap_64 Model.Ntt.bOps)
+      = some (x.map (· % P)).toList := by
+  rw [(GenBridge.Lattice.gen_ntt64 x hx).1, Option.map_some, (GenBridge.Lattice.gen_intt64 _ (ntt64_size x hx)).1,
+    coset_intt_ntt x hx]
+example : (Loops.lat_coset_ntt_noswap_64 Model.Ntt.bOps (List.range 64)).map (Loops.lat_coset_intt_noswap_64 Model.Ntt.bOps)
+    = some (List.range 64) := by decide +kernel
+
+/-- **Transfer of `ring_mul_is_negacyclic`**: the regenerated forward transforms of both operands, the coefficient-wise
+    product, then the regenerated inverse transform give the schoolbook product modulo `X^64 + 1`, for all pairs. -/
+theorem gen_transforms_mul_is_negacyclic (a b : Ring) (ha : a.size = 64) (hb : b.size = 64) :
+    ((Loops.lat_coset_ntt_noswap_64 Model.Ntt.bOps a.toList).bind fun A =>
+      (Loops.lat_coset_ntt_noswap_64 Model.Ntt.bOps b.toList).map fun B =>
+        Loops.lat_coset_intt_noswap_64 Model.Ntt.bOps (ringHadamard A.toArray B.toArray).toList)
+      = some (negacyclic a b).toList := by
+  have hs : (ringHadamard (ntt64 a) (ntt64 b)).size = 64 := ringZip_size _ _ _
+  rw [(GenBridge.Lattice.gen_ntt64 a ha).1, (GenBridge.Lattice.gen_ntt64 b hb).1, Option.bind_some, Option.map_some,
+    Array.toArray_toList, Array.toArray_toList, (GenBridge.Lattice.gen_intt64 _ hs).1, ← ring_mul_is_negacyclic a b ha hb]
+  rfl
+example : (Array.replicate 64 2 : Ring).size = 64 := by decide
+
+/-- **Transfer of `embed_extract`**: for every 32-byte message and every noise vector with coefficients in
+    `(-2^14, 2^14)`, the regenerated `extract_msg` applied to (regenerated `embed_msg` + noise) returns the message. -/
+theorem gen_embed_extract (msg : List Nat) (hlen : msg.length = 32) (hb : ∀ b ∈ msg, b < 256)
+    (noise : Nat → Int) (hnoise : ∀ k, k < 64 → -16384 < noise k ∧ noise k < 16384)
+    (r : Ring) (hsz : r.size = 64)
+    (hr : ∀ k, k < 64 → r.getD k 0 = addNoise ((Loops.lat_embed_msg msg).getD k 0) (noise k)) :
+    Loops.lat_extract_msg r.toList = msg ∧ Loops.lat_extract_msg_ok r.toList = true ∧ Loops.lat_embed_msg_ok msg = true := by
+  refine ⟨?_, (GenBridge.Lattice.gen_extract_msg_eq r hsz).2, (GenBridge.Lattice.gen_embed_msg_eq msg hlen hb).2⟩
+  rw [(GenBridge.Lattice.gen_extract_msg_eq r hsz).1]
+  apply embed_extract msg hlen hb noise hnoise r
+  intro k hk
+  rw [hr k hk, (GenBridge.Lattice.gen_embed_msg_eq msg hlen hb).1]
+  simp [Array.getD_eq_getD_getElem?, List.getD_eq_getElem?_getD]
+example : addNoise 32768 16383 = 49151 := by decide
+
+/-- **Transfer of `embed_extract`** (embedding side): noise within `(-2^14, 2^14)` on the coefficients *computed by the
+    regenerated `embed_msg`* is removed by `extractMsg`. -/
+theorem gen_embed_then_extract (msg : List Nat) (hlen : msg.length = 32) (hb : ∀ b ∈ msg, b < 256)
+    (noise : Nat → Int) (hnoise : ∀ k, k < 64 → -16384 < noise k ∧ noise k < 16384)
+    (r : Ring) (hr : ∀ k, k < 64 → r.getD k 0 = addNoise ((Loops.lat_embed_msg msg).getD k 0) (noise k)) :
+    extractMsg r = msg := by
+  apply embed_extract msg hlen hb noise hnoise r
+  intro k hk
+  rw [hr k hk, (GenBridge.Lattice.gen_embed_msg_eq msg hlen hb).1]
+  simp [Array.getD_eq_getD_getElem?, List.getD_eq_getElem?_getD]
+example : addNoise 32768 (-16383) = 16385 := by decide
 
 end TF.C18
